@@ -16,6 +16,7 @@ LEVEL = "other"
 
 
 def check(ctx):
+    ctx.rule("R-C05.5", "field kinds: a field specified as one node never receives the result of a production that can return a list, a sequence field never a bare node")
     ctx.rule("R-C05.4", "statement grammar: every statement form of the reference grammar is accepted and no statement production refuses a token its callee can start with (label / case bodies, pragmas, do, for-declarations ...)")
     ctx.rule("R-C05.1", "statement productions: every slot is filled from the call site / token the reviewed reference names (else binds to the nearest if, bodies are one statement, for-clauses in order, block items appended in source order)")
     ctx.rule("R-C05.2", "switch regrouping is conservative: Case and Default are treated alike in every class test; children are only appended (never inserted, dropped or duplicated)")
@@ -75,6 +76,46 @@ def check(ctx):
                 ctx.oblige("R-C05.3", f"{m}: {S.unparse(c)[:40]}", False)
                 ctx.violation("R-C05.3", f"order:{m}:{c.func.attr}", f"{m} uses `{S.unparse(c)[:60]}`: items must be collected in source order by append/extend only", file=px.rel, function=f"CParser.{m}", line=c.lineno)
         ctx.oblige("R-C05.3", f"{m} collects by append/extend", True, nontrivial=False)
+    # ---- R-C05.5: a field that holds one node never receives a list (and a sequence field never a bare node) ----------------
+    from .. import astspec as A
+    spec5 = {n_: dict(ents) for n_, ents, _ in A.parse_cfg()}
+    from .. import wirecheck as WC5
+    cur5 = WC5.current()
+    kinds = {}
+
+    def kinds_of(meth, seen=()):
+        if meth in kinds:
+            return kinds[meth]
+        if meth in seen or meth not in cur5:
+            return set()
+        out = set()
+        for r in cur5[meth]["returns"]:
+            if r.startswith("new:"):
+                out.add("node")
+            elif r.startswith(("[", "+", "acc#", "_build_declarations#")):
+                out.add("list")
+            elif r.startswith("_parse_"):
+                out |= kinds_of(r.split("#")[0], seen + (meth,))
+        kinds[meth] = out
+        return out
+    n55 = 0
+    for meth, info in sorted(cur5.items()):
+        for lab, fa in info["records"]:
+            cls = lab.split(">")[-1]
+            for f_, kind in spec5.get(cls, {}).items():
+                for v in fa.get(f_, []):
+                    base = v.split("#")[0]
+                    if not (base.startswith("_parse_") and "." not in v and "[" not in v):
+                        continue
+                    k = kinds_of(base)
+                    bad = (kind == "child" and "list" in k) or (kind == "seq" and "node" in k)
+                    n55 += 1
+                    ctx.oblige("R-C05.5", f"{meth}: {cls}.{f_} <- {v}", not bad, nontrivial=True, sample={"rule": "R-C05.5", "method": meth, "field": f"{cls}.{f_} ({kind})", "receives": v, "which can be": sorted(k)} if (bad or n55 % 37 == 0) else None)
+                    if bad:
+                        ctx.violation("R-C05.5", f"kind:{cls}.{f_}:{base}", f"{meth} stores the result of {base} in {cls}.{f_}, a field for {'one node' if kind == 'child' else 'a list of nodes'}, but {base} can return {'a list' if kind == 'child' else 'a single node'} "
+                                      f"({sorted(k)}): traversal, show() and the generator then meet a {'list' if kind == 'child' else 'node'} where they expect the other", file=px.rel, function=f"CParser.{meth}")
+    ctx.require_instances("R-C05.5", 60)
+
     # ---- R-C05.4: the statement part of the grammar conformance argument (decided by the C01 machinery) --------------------
     from . import share
     STMT_NTS = ("statement", "substatement", "labeled_statement", "compound_statement", "block_item", "expression_statement", "selection_statement", "switch_body", "switch_item",
